@@ -54,6 +54,7 @@
 //! # Ok::<(), Box<dyn std::error::Error>>(())
 //! ```
 #![warn(missing_docs)]
+#![allow(unexpected_cfgs)] // cfg(fidget_verif) verification hooks
 
 pub mod context;
 pub use context::Context;
